@@ -618,7 +618,7 @@ def corr(ctx, oracle_only=False, scale=1, skip_run=False):
     lines, after = [], []
 
     # ---------------- (A) translator validation
-    for _ in range(ctx.n(150, 3000) * scale):
+    for _ in range(ctx.n(400, 6000) * scale):
         p = gen_params(rng)
         ri = p['ri']
         rs, Ls = gen_points(rng, ri, 1)
@@ -637,7 +637,7 @@ def corr(ctx, oracle_only=False, scale=1, skip_run=False):
             after.append(('gen', {'part': 'A', 'group': group, **{k: v[k] for k in PARAMS}}, impl))
 
     # ---------------- (B)+(C) contributions, combination, multi-phase and total strength
-    for _ in range(ctx.n(120, 2500) * scale):
+    for _ in range(ctx.n(300, 5000) * scale):
         p = gen_params(rng)
         allOn = flags(rng) if rng.random() < 0.8 else [False] * 5
         nph = rng.choice([1, 1, 2, 3])
@@ -695,7 +695,7 @@ def corr(ctx, oracle_only=False, scale=1, skip_run=False):
             after.append(('total', {'part': 'C', **args}, tot))
 
     # edge / screw limits on the real functions
-    for _ in range(ctx.n(40, 600) * scale):
+    for _ in range(ctx.n(80, 1200) * scale):
         p = gen_params(rng)
         rs = [10 ** rng.uniform(-9, -6.5) for _ in range(5)]
         Ls = [10 ** rng.uniform(-8.3, -5.5) for _ in range(5)]
@@ -705,7 +705,7 @@ def corr(ctx, oracle_only=False, scale=1, skip_run=False):
         apply_check(res, 'limits', args)
 
     # ---------------- (D) history sequences
-    for _ in range(ctx.n(60, 1500) * scale):
+    for _ in range(ctx.n(150, 3000) * scale):
         P = rng.randint(1, 3)
         nsolve = rng.randint(1, 3)
         nb = rng.randint(2, 12)
@@ -764,7 +764,7 @@ def corr(ctx, oracle_only=False, scale=1, skip_run=False):
             after.append(('hist', {'part': 'D', 'P': P, 'steps': [len(s) for s in seq_steps]}, n_rows, sm.rss.ravel().tolist(), sm.ls.ravel().tolist(), list(sm.solidStrength)))
 
     # ---------------- (E) grain growth
-    for _ in range(ctx.n(150, 4000) * scale):
+    for _ in range(ctx.n(400, 8000) * scale):
         cMin = 10 ** rng.uniform(-8, -6)
         a = dict(cMin=cMin, cMax=cMin * rng.choice([10, 30, 100]), bins=rng.choice([3, 8, 20, 60, 150]),
                  gbe=rng.uniform(0.1, 1.0), M=10 ** rng.uniform(-16, -12), alpha=rng.choice([1.0, rng.uniform(0.3, 3)]),
@@ -810,7 +810,7 @@ def corr(ctx, oracle_only=False, scale=1, skip_run=False):
                 lines.append('c18.gg %s %s %s %s %s %s %s' % (f2b(a['alpha']), f2b(a['M']), f2b(a['gbe']), f2b(z), enc_list(x), enc_list(size), enc_list(bounds)))
                 after.append(('gg', {'part': 'E', **a}, gr, rate, d, g.pbm._netFlux.copy(), nearr))
     # standalone runs (clock over repeated solve calls, volume, MONITORED mean size)
-    for it in range(ctx.n(3, 40) * scale + 1):
+    for it in range(ctx.n(4, 60) * scale + 1):
         cMin = 10 ** rng.uniform(-7.5, -6.5)
         a = dict(cMin=cMin, cMax=cMin * 100, bins=rng.choice([40, 80]), gbe=0.5, M=10 ** rng.uniform(-15, -13), alpha=1.0,
                  pos=rng.uniform(0.3, 0.6), width=rng.uniform(0.15, 0.4), calls=rng.randint(2, 5), euler=rng.random() < 0.5)
